@@ -63,6 +63,8 @@ pub trait USet: Sized + Clone + PartialEq + std::fmt::Debug + Send + Sync + 'sta
     }
     fn max_elem() -> u64;
     fn new() -> Self;
+    /// `Default::default()`
+    fn dflt() -> Self;
     fn wcb(cap: usize, bits: u64) -> Self;
     fn wcm(cap: usize, mx: u64) -> Self;
     fn wco(o: &Self) -> Self;
@@ -201,6 +203,9 @@ macro_rules! impl_uset {
             }
             fn new() -> Self {
                 <$S>::new()
+            }
+            fn dflt() -> Self {
+                <$S as Default>::default()
             }
             fn wcb(cap: usize, bits: u64) -> Self {
                 <$S>::with_capacity_and_bits(cap, bits as $T)
